@@ -234,9 +234,9 @@ impl SM {
     }
 }
 impl Model for SM {
-    async fn init(mut self, _: &mut Context<Self>) -> InitializedModel<Self> {
+    async fn init(mut self, cx: &mut Context<Self>) -> InitializedModel<Self> {
         let hid = self.sh.next_hid.fetch_add(1, Ordering::Relaxed) + 1;
-        self.sh.log(format!("[\"init\",{},{}]", self.id, hid));
+        self.sh.log(format!("[\"init\",{},{},\"{}\"]", self.id, hid, cx.name()));
         let ops = self.sh.inits.get(&self.id).cloned().unwrap_or_default();
         self.run_ops(&ops, hid).await;
         self.into()
@@ -335,6 +335,8 @@ fn describe(r: &Result<(), ExecutionError>) -> String {
 struct Bench {
     sh: Arc<Shared>,
     models: Vec<(String, usize)>,
+    /// parent of each model (sub-models are added by the parent's `ProtoModel::build`)
+    parents: Vec<Option<usize>>,
     outputs: Vec<(String, String, Vec<Conn>)>,
     requestors: Vec<(String, String, Vec<Conn>)>,
     threads: usize,
@@ -347,7 +349,50 @@ struct Bench {
     req_handles: HashMap<String, Requestor<u64, u64>>,
 }
 
+/// A scripted model together with the sub-models its `build` adds (in index order).
+struct ProtoSM {
+    sm: SM,
+    children: Vec<(ProtoSM, Mailbox<SM>, String)>,
+}
+impl nexosim::model::ProtoModel for ProtoSM {
+    type Model = SM;
+    fn build(self, cx: &mut nexosim::model::BuildContext<Self>) -> SM {
+        for (child, mbox, name) in self.children {
+            cx.add_submodel(child, mbox, name);
+        }
+        self.sm
+    }
+}
+
 impl Bench {
+    fn children_of(&self, i: usize) -> Vec<usize> {
+        (0..self.models.len()).filter(|&c| self.parents[c] == Some(i)).collect()
+    }
+    /// order in which the model tasks are spawned: a model's sub-models are built (and spawned) before the model itself
+    fn spawn_order(&self) -> Vec<usize> {
+        fn visit(b: &Bench, i: usize, out: &mut Vec<usize>) {
+            for c in b.children_of(i) {
+                visit(b, c, out);
+            }
+            out.push(i);
+        }
+        let mut out = Vec::new();
+        for i in 0..self.models.len() {
+            if self.parents[i].is_none() {
+                visit(self, i, &mut out);
+            }
+        }
+        out
+    }
+    fn qualified_name(&self, i: usize) -> String {
+        match self.parents[i] {
+            None => self.models[i].0.clone(),
+            Some(p) => {
+                let n = if self.models[i].0.is_empty() { "<unknown>".to_string() } else { self.models[i].0.clone() };
+                format!("{}.{}", self.qualified_name(p), n)
+            }
+        }
+    }
     fn connect_late(&self, c: &[String]) {
         let ci: usize = c[3].parse().unwrap();
         if c[1] == "Output" {
@@ -371,6 +416,7 @@ fn load_bench() -> Option<Bench> {
     let text = std::fs::read_to_string(path).unwrap();
     let mut sched: Vec<Vec<usize>> = Vec::new();
     let mut models: Vec<(String, usize)> = Vec::new();
+    let mut parents: Vec<Option<usize>> = Vec::new();
     let mut outputs: Vec<(String, String, Vec<Conn>)> = Vec::new();
     let mut requestors: Vec<(String, String, Vec<Conn>)> = Vec::new();
     let mut sh = Shared::default();
@@ -390,7 +436,12 @@ fn load_bench() -> Option<Bench> {
             continue;
         }
         match t[0] {
-            "model" => models.push((t[1].to_string(), t[2].parse().unwrap())),
+            // model <name or _ for the empty name> <capacity> [<parent index or -1>]
+            "model" => {
+                models.push((if t[1] == "_" { String::new() } else { t[1].to_string() }, t[2].parse().unwrap()));
+                let p: i64 = t.get(3).map(|x| x.parse().unwrap()).unwrap_or(-1);
+                parents.push(if p < 0 { None } else { Some(p as usize) });
+            }
             "output" => outputs.push((t[1].to_string(), t[2].to_string(), parse_conns(&t[3..]))),
             "requestor" => requestors.push((t[1].to_string(), t[2].to_string(), parse_conns(&t[3..]))),
             "handler" => {
@@ -452,7 +503,7 @@ fn load_bench() -> Option<Bench> {
         req_handles.insert(key.clone(), held.clone());
         sms[i].reqs.insert(k, held);
     }
-    Some(Bench { sh, models, outputs, requestors, threads, cmds, sched, sms, mboxes, addrs, out_handles, req_handles })
+    Some(Bench { sh, models, parents, outputs, requestors, threads, cmds, sched, sms, mboxes, addrs, out_handles, req_handles })
 }
 
 // ---- RUNNER (public API) ---- everything above is shared with the in-crate scheduled replay (verif_sched_tail.rs)
@@ -465,10 +516,17 @@ fn verif_run_bench_script() {
     };
     let sh = b.sh.clone();
     let mut init = SimInit::with_num_threads(b.threads);
-    let sms = std::mem::take(&mut b.sms);
-    let mboxes = std::mem::take(&mut b.mboxes);
-    for (i, (sm, mbox)) in sms.into_iter().zip(mboxes.into_iter()).enumerate() {
-        init = init.add_model(sm, mbox, b.models[i].0.clone());
+    let mut sms: Vec<Option<SM>> = std::mem::take(&mut b.sms).into_iter().map(Some).collect();
+    let mut mboxes: Vec<Option<Mailbox<SM>>> = std::mem::take(&mut b.mboxes).into_iter().map(Some).collect();
+    fn proto(b: &Bench, i: usize, sms: &mut Vec<Option<SM>>, mboxes: &mut Vec<Option<Mailbox<SM>>>) -> ProtoSM {
+        let children = b.children_of(i).into_iter().map(|c| (proto(b, c, sms, mboxes), mboxes[c].take().unwrap(), b.models[c].0.clone())).collect();
+        ProtoSM { sm: sms[i].take().unwrap(), children }
+    }
+    for i in 0..b.models.len() {
+        if b.parents[i].is_none() {
+            let p = proto(&b, i, &mut sms, &mut mboxes);
+            init = init.add_model(p, mboxes[i].take().unwrap(), b.models[i].0.clone());
+        }
     }
     sh.log("[\"cmd-begin\",\"init\"]".to_string());
     let r = init.init(MonotonicTime::EPOCH);
